@@ -13,7 +13,7 @@ from .. import attach, cv, gen, lib, ref
 from ..lib import call
 
 PROP = "C15"
-PLAN = {"quick": (480, 500), "thorough": (8000, 3600)}
+PLAN = {"quick": (768 + 400, 500), "thorough": (12288 + 6000, 3600)}
 STEP_BUDGET = 60_000_000  # Intersection of two multi-span cubics legitimately needs ~1e7 loop line events
 WITH_REPO_TESTS = True  # thorough tier also runs the repository's own suite under M1 / M3 / M4
 RULE = ("case = 2-3 initial curves (two of them built from the same KnotVector object, one a copy) + a program of 5-25 "
@@ -32,7 +32,50 @@ MUT = ["insert", "remove", "knot_clean", "deg_inc", "deg_dec", "deg_set", "degre
 PURE = ["eval", "split", "join", "arith", "eq", "fraction", "copy", "derivate", "integrate", "projection", "intersection", "str"]
 
 
+# ---- bounded-exhaustive part: every sequence of 2 (quick) / 3 (thorough) steps of a fixed alphabet on fixed curves
+ALPHABET = [
+    ("insert", False, [3, 0, 0, 0]), ("insert", True, [3, 0, 0, 0]), ("insert", True, [3, 4, 0, 0]),
+    ("remove", False, [0, 0, 0, 0]), ("remove", False, [0, 0, 1, 0]), ("remove", True, [5, 0, 0, 0]),
+    ("deg_inc", False, [0, 0, 0, 0]), ("deg_dec", False, [0, 0, 1, 0]), ("deg_dec", True, [0, 2, 0, 0]),
+    ("clean", False, [0, 0, 0, 0]), ("set_weights", False, [0, 1, 0, 0]), ("set_ctrlpoints", True, [0, 0, 0, 0]),
+    ("split", False, [7, 1, 0, 0]), ("arith", False, [0, 0, 0, 0]), ("eq", False, [0, 0, 0, 0]), ("update", False, [11, 1, 0, 0]),
+]
+BASES = [
+    {"A": {"U": [0, 0, 0, "1/2", 1, 1, 1], "P": [1, 3, -2, 4], "W": None}, "dim": 0},
+    {"A": {"U": [-1, -1, -1, 0, 0, 1, 1, 1], "P": [[1, 0], [2, 3], [0, 1], [-2, 2], [3, 3]], "W": [1, 2, "1/2", 3, 1]}, "dim": 2},
+    {"A": {"U": [0, 0, "1/3", "2/3", 1, 1], "P": [[0, 0], [1, 2], [3, 1], [4, 4]], "W": None}, "dim": 2},
+]
+
+
+def enum_size(tier):
+    return len(BASES) * len(ALPHABET) ** (2 if tier == "quick" else 3)
+
+
+ENUMERATED = {"quick": (enum_size("quick"), "every sequence of 2 steps of a 16-step alphabet (valid and invalid requests) on 3 fixed groups of curves sharing a KnotVector"),
+              "thorough": (enum_size("thorough"), "every sequence of 3 steps of a 16-step alphabet (valid and invalid requests) on 3 fixed groups of curves sharing a KnotVector")}
+
+
+def enum_case(idx, tier):
+    L = 2 if tier == "quick" else 3
+    n = len(ALPHABET)
+    base = BASES[idx // n ** L]
+    k = idx % n ** L
+    steps = []
+    for pos in range(L):
+        op, bad, r = ALPHABET[k % n]
+        steps.append({"op": op, "t": [0, 0, 3][pos % 3], "o": 1, "bad": bad, "r": r})
+        k //= n
+    A = dict(base["A"], numtype="frac")
+    npts = len(A["P"])
+    dim = base["dim"]
+    BP = [i - 1 for i in range(npts)] if dim == 0 else [[i, 1 - i] for i in range(npts)]
+    C = {"U": [A["U"][0], A["U"][0], A["U"][-1], A["U"][-1]], "P": [1, 2] if dim == 0 else [[0, 1], [2, 0]], "W": None, "numtype": "frac"}
+    return {"A": A, "B_P": BP, "C": C, "numtype": "frac", "steps": steps, "dim": dim, "enumerated": True}
+
+
 def gen_case(rng, idx, tier):
+    if idx < enum_size(tier):
+        return enum_case(idx, tier)
     nt = rng.choice(["frac", "frac", "float"])
     dim = rng.choice([0, 2, 2])
     A = gen.curve(rng, pmax=3, nintmax=2, dim=dim, wratio=9)
@@ -292,4 +335,4 @@ def run_case(case, ctx):
         whole_interval_ok(ctx, t, op)
         if res is not None and hasattr(res, "_BaseCurve__knotvector") and len(pool) < 8:
             pool.append(res)
-    ctx.mark_nontrivial(raised >= 1 and okmut >= 3)
+    ctx.mark_nontrivial((raised >= 1 and okmut >= 3) or (case.get("enumerated") and raised + okmut >= 1))
